@@ -500,11 +500,19 @@ def own_all(cfg):
     return set(cfg.get("own", []))
 
 
-def iam_drop_key(cfg):
-    """signature of "a configured, non-overridden IAM mixin is missing while the API defines IAM-named RPCs":
-    the open defect at HEAD needs an API-defined IAM RPC that HAS a rule in the YAML (then _has_iam_overrides
-    drops all IAM mixins); an API-defined IAM RPC WITHOUT a rule must not cost any mixin — a different failure."""
-    ruled = sorted(m for m in own_all(cfg) if effective_rule(cfg, m) is not None)
+def drop_key(cfg, obs, m, default):
+    """key of "configured IAM mixin `m` (not defined by the API) is missing".  The KNOWN key is given only for the recorded defect's
+    trigger AND symptom: the API defines an IAM-named RPC that HAS a rule in the YAML, in a service that lies INSIDE the sub-package
+    view of the examined service (only then does `_has_iam_overrides`, evaluated on that view, see it), the option add-iam-methods is
+    off, and the real `_has_iam_overrides` is True with `m` dropped by the SELECTION itself (mixin_api_methods).  The same trigger
+    with no ruled own RPC has its own, unlisted key; everything else (defining service outside the view, `m` selected but missing
+    from a client or transport, overrides False) keeps the general key of the site and is a violation."""
+    own = own_all(cfg)
+    if API_OF[m] != IAM or not own or m in own or outside_view(cfg) or cfg["add_iam"]:
+        return default
+    if m in obs.get("methods", {}) or not obs.get("iam_overrides"):
+        return default
+    ruled = sorted(x for x in own if effective_rule(cfg, x) is not None)
     return "iam-override-drops-all:overriding-rpc-has-rule" if ruled else "iam-override:api-rpc-without-rule-drops-mixins"
 
 
@@ -517,11 +525,14 @@ def outside_view(cfg):
     return set(cfg["own"])
 
 
-def extra_key(cfg, m, default):
-    """signature of "an IAM mixin is exposed although the API defines a same-named RPC": the open defect at HEAD needs the defining
-    service to lie OUTSIDE the sub-package view of the examined service (then `_has_iam_overrides`, evaluated on the view, does not
-    see it); an exposed mixin whose same-named RPC is defined inside the view, or any other extra RPC, keeps the general key"""
-    if m in outside_view(cfg) and IAM in cfg["apis"] and effective_rule(cfg, m) is not None and not cfg["add_iam"]:
+def extra_key(cfg, obs, m, default):
+    """key of "an IAM mixin is exposed although the API defines a same-named RPC".  The KNOWN key is given only for the recorded defect's
+    trigger AND symptom: IAM listed, `m` ruled, add-iam-methods off, the service defining `m` lies OUTSIDE the sub-package view of the
+    examined service (then `_has_iam_overrides`, evaluated on the view, does not see it), and the real code shows exactly that: overrides
+    False on the view and `m` in the view's mixin_api_methods.  An exposed mixin whose same-named RPC is defined inside the view, a client
+    or transport exposing what the selection does not hold, or any other extra RPC keeps the general key of the site."""
+    if (m in outside_view(cfg) and IAM in cfg["apis"] and effective_rule(cfg, m) is not None and not cfg["add_iam"]
+            and m in obs.get("methods", {}) and obs.get("iam_overrides") is False):
         return "iam-yield-per-subpackage-view:rpc-of-service-outside-view"
     return default
 
@@ -682,13 +693,14 @@ def judge(ctx, cfg, obs, label=""):
         want, got = expected_exposed(cfg, m), m in obs["methods"]
         ctx.count("selected", f"{m}:{'yes' if got else 'no'}")
         if want and not got:
-            if API_OF[m] == IAM and own_all(cfg):
-                ctx.fail(iam_drop_key(cfg), f"{m} is listed, has a rule and is not defined by the API, yet mixin_api_methods drops it "
+            k = drop_key(cfg, obs, m, "selection:missing")
+            if k != "selection:missing":
+                ctx.fail(k, f"{m} is listed, has a rule and is not defined by the API, yet mixin_api_methods drops it "
                          f"because the API defines {sorted(own_all(cfg))}", dict(payload, method=m))
             else:
                 ctx.fail("selection:missing", f"{m} is listed and has a rule but is not selected", dict(payload, method=m))
         if got and not want:
-            ctx.fail(extra_key(cfg, m, "selection:extra"), f"{m} is selected although " + ("its API is not listed" if API_OF[m] not in cfg["apis"] else "it has no rule / is defined by the API itself"),
+            ctx.fail(extra_key(cfg, obs, m, "selection:extra"), f"{m} is selected although " + ("its API is not listed" if API_OF[m] not in cfg["apis"] else "it has no rule / is defined by the API itself"),
                      dict(payload, method=m))
         if got:
             v = obs["methods"][m]
@@ -731,13 +743,14 @@ def judge(ctx, cfg, obs, label=""):
             legacy = cfg["add_iam"] and m in IAM_METHODS
             want = expected_exposed(cfg, m) or legacy or m in own_here
             if want and m not in present:
-                if API_OF[m] == IAM and own_all(cfg) and m not in own_all(cfg):
-                    ctx.fail(iam_drop_key(cfg), f"{kind} client lacks {snake(m)}: configured, not defined by the API, dropped because the API "
+                k = drop_key(cfg, obs, m, "presence:missing")
+                if k != "presence:missing":
+                    ctx.fail(k, f"{kind} client lacks {snake(m)}: configured, not defined by the API, dropped because the API "
                              f"defines {sorted(own_all(cfg))}", dict(payload, method=m, client=kind))
                 else:
                     ctx.fail("presence:missing", f"{kind} client lacks {snake(m)}", dict(payload, method=m, client=kind))
             if m in present and not want:
-                ctx.fail(extra_key(cfg, m, "presence:extra"), f"{kind} client exposes {snake(m)} although it is not configured", dict(payload, method=m, client=kind))
+                ctx.fail(extra_key(cfg, obs, m, "presence:extra"), f"{kind} client exposes {snake(m)} although it is not configured", dict(payload, method=m, client=kind))
     # ------------------------------------------------ T3: transports (stubs present, wrapped-method tables)
     for lab in ("grpc", "grpc_asyncio", "rest"):
         if lab.split("_")[0] not in tr:
@@ -761,10 +774,10 @@ def judge(ctx, cfg, obs, label=""):
             if m in own_here:
                 continue
             want = expected_exposed(cfg, m) or (cfg["add_iam"] and m in IAM_METHODS and lab != "rest")
-            if want and m not in have and not (API_OF[m] == IAM and own_all(cfg)):
-                ctx.fail("transport:missing-stub", f"{lab} transport has no {snake(m)} although the RPC is configured", dict(payload, method=m, client=lab))
+            if want and m not in have:
+                ctx.fail(drop_key(cfg, obs, m, "transport:missing-stub"), f"{lab} transport has no {snake(m)} although the RPC is configured", dict(payload, method=m, client=lab))
             if m in have and not (want or (cfg["add_iam"] and m in IAM_METHODS)):
-                ctx.fail(extra_key(cfg, m, "transport:extra-stub"), f"{lab} transport carries {snake(m)} although the RPC is not configured", dict(payload, method=m, client=lab))
+                ctx.fail(extra_key(cfg, obs, m, "transport:extra-stub"), f"{lab} transport carries {snake(m)} although the RPC is not configured", dict(payload, method=m, client=lab))
             if m in wrapped:
                 e = wr["wrapped"][snake(m)]
                 if e.get("timeout") is not None or e.get("retry") is not None:
@@ -831,7 +844,7 @@ def judge(ctx, cfg, obs, label=""):
                 continue
             if not want:
                 if got["outcome"] != "absent":
-                    ctx.fail(extra_key(cfg, m, "grpc:exposed-not-configured"), f"{kind} {snake(m)} is callable although not configured: {got}", p2)
+                    ctx.fail(extra_key(cfg, obs, m, "grpc:exposed-not-configured"), f"{kind} {snake(m)} is callable although not configured: {got}", p2)
                 continue
             if got["outcome"] == "absent":
                 continue                                  # reported under presence
@@ -910,7 +923,7 @@ def judge(ctx, cfg, obs, label=""):
             # ---- oracle
             if not want:
                 if got["outcome"] != "not-generated":
-                    ctx.fail(extra_key(cfg, m, "rest:exposed-not-configured"), f"rest {snake(m)} is callable although not configured: {got}", p2)
+                    ctx.fail(extra_key(cfg, obs, m, "rest:exposed-not-configured"), f"rest {snake(m)} is callable although not configured: {got}", p2)
                 continue
             if got["outcome"] == "not-generated":
                 continue                                  # reported under presence
@@ -937,7 +950,7 @@ def judge(ctx, cfg, obs, label=""):
             # the OPEN finding, narrowly: the binding the YAML prescribes is an ADDITIONAL one whose body-ness differs from the
             # primary binding's, verb and path on the wire are that binding's, and only the body is lost / KeyError('body') is raised
             if got["outcome"] != "sent":
-                if mixed and er["binding"] > 0 and not sel_b["body"] and got["outcome"] == "KeyError":
+                if mixed and er["binding"] > 0 and not sel_b["body"] and got["outcome"] == "KeyError" and "'body'" in res.get("msg", "") and not srv:
                     ctx.fail("rest-body-follows-first-binding", f"rest {snake(m)} raised {got['outcome']}: the selected additional binding has no body "
                              f"but the rule's first binding has one", p2)
                 else:
